@@ -124,6 +124,13 @@ fn height(lines: &[String], w: usize) -> usize {
 fn oracle(case: &Case, obs: &[StepObs]) -> (u64, Option<(String, String)>) {
     let w = case.w as usize;
     let mut vt = Vt::new(case.w, case.h);
+    // open finding 'empty-line-after-text-only-draw-swallowed' (Coq: C01_empty_line_swallowed_refuted) as a
+    // predicate on the failing observation: `vt_alt` is fed the same calls plus the row the property
+    // demands when the closure's EMPTY first line meets a wrap-pending cursor; a failure gets the
+    // finding's class iff the same comparison passes on `vt_alt`
+    let mut vt_alt = Vt::new(case.w, case.h);
+    let mut alt_ops: Vec<TOp> = vec![];
+    let mut swallow_injected = false;
     let mut log: Vec<String> = vec![];
     let mut tmpl = case.bars[0].tmpl.clone();
     let mut hidden = false; // finished-and-cleared
@@ -166,6 +173,31 @@ fn oracle(case: &Case, obs: &[StepObs]) -> (u64, Option<(String, String)>) {
         }
         vt.feed(&o.emitted);
         all_ops.extend(o.emitted.iter().cloned());
+        {
+            let mut fed = false;
+            if let Op::Suspend(_, ws) = op {
+                if ws.first().map_or(false, |l| l.is_empty()) {
+                    if let Some(f) = o.emitted.iter().position(|x| *x == TOp::Flush) {
+                        if matches!(o.emitted.get(f + 1), Some(TOp::Line(l)) if l.is_empty()) {
+                            vt_alt.feed(&o.emitted[..=f]);
+                            alt_ops.extend(o.emitted[..=f].iter().cloned());
+                            if vt_alt.cursor().1 == w {
+                                vt_alt.feed(&[TOp::Line(String::new())]);
+                                alt_ops.push(TOp::Line(String::new()));
+                                swallow_injected = true;
+                            }
+                            vt_alt.feed(&o.emitted[f + 1..]);
+                            alt_ops.extend(o.emitted[f + 1..].iter().cloned());
+                            fed = true;
+                        }
+                    }
+                }
+            }
+            if !fed {
+                vt_alt.feed(&o.emitted);
+                alt_ops.extend(o.emitted.iter().cloned());
+            }
+        }
         let painted = o.emitted.iter().any(|x| *x == TOp::Flush);
         if !painted {
             continue;
@@ -221,7 +253,11 @@ fn oracle(case: &Case, obs: &[StepObs]) -> (u64, Option<(String, String)>) {
         checked += 1;
         if !rows_match(&got, &want) {
             // narrow classification of the known shapes
-            let class = classify(&log, &frame, &got, &want);
+            let class = if swallow_injected && rows_match(&vt_alt.rows(), &want) {
+                "empty-line-after-text-only-draw-swallowed".to_string()
+            } else {
+                classify(&log, &frame, &got, &want)
+            };
             return (
                 checked,
                 Some((
@@ -233,12 +269,6 @@ fn oracle(case: &Case, obs: &[StepObs]) -> (u64, Option<(String, String)>) {
     }
     // cursor: ordinary output written afterwards starts on a fresh line below the frame
     if !obs.is_empty() && obs.iter().all(|o| o.panic.is_none()) && all_ops.iter().any(|x| *x == TOp::Flush) {
-        let mut vt2 = Vt::new(case.w, case.h);
-        vt2.feed(&all_ops);
-        let before = vt2.rows();
-        vt2.feed(&[TOp::Str("Z".into())]);
-        let after = vt2.rows();
-        let (row, col) = vt2.cursor();
         // expected: all previous rows unchanged, Z alone at column 0 of a row below every log/frame row
         let mut want: Vec<String> = vec![];
         for l in &log {
@@ -247,27 +277,39 @@ fn oracle(case: &Case, obs: &[StepObs]) -> (u64, Option<(String, String)>) {
         for l in &frame {
             want.extend(wrap_rows(l, w));
         }
-        let z_row = row;
-        let ok = after.len() > before.len().min(after.len().saturating_sub(1))
-            && after.get(z_row).map_or(false, |r| r == "Z")
-            && z_row >= want.len()
-            && (col == 1 || (w == 1 && col == 1))
-            && after[..z_row.min(before.len())] == before[..z_row.min(before.len())];
+        let fresh_line = |ops: &[TOp]| -> (bool, String) {
+            let mut vt2 = Vt::new(case.w, case.h);
+            vt2.feed(ops);
+            let before = vt2.rows();
+            vt2.feed(&[TOp::Str("Z".into())]);
+            let after = vt2.rows();
+            let (row, col) = vt2.cursor();
+            let z_row = row;
+            let ok = after.len() > before.len().min(after.len().saturating_sub(1))
+                && after.get(z_row).map_or(false, |r| r == "Z")
+                && z_row >= want.len()
+                && col == 1
+                && after[..z_row.min(before.len())] == before[..z_row.min(before.len())];
+            (
+                ok,
+                format!(
+                    "a character written after the history landed at row {z_row} col {} ; rows before {:?} after {:?} (log+frame needs {} rows)",
+                    col.saturating_sub(1),
+                    before,
+                    after,
+                    want.len()
+                ),
+            )
+        };
         checked += 1;
+        let (ok, detail) = fresh_line(&all_ops);
         if !ok {
-            return (
-                checked,
-                Some((
-                    "cursor-not-on-fresh-line".into(),
-                    format!(
-                        "a character written after the history landed at row {z_row} col {} ; rows before {:?} after {:?} (log+frame needs {} rows)",
-                        col.saturating_sub(1),
-                        before,
-                        after,
-                        want.len()
-                    ),
-                )),
-            );
+            let class = if swallow_injected && fresh_line(&alt_ops).0 {
+                "empty-line-after-text-only-draw-swallowed"
+            } else {
+                "cursor-not-on-fresh-line"
+            };
+            return (checked, Some((class.into(), detail)));
         }
     }
     (checked, None)
@@ -462,6 +504,28 @@ fn corpus() -> Vec<Case> {
             50,
             bar(vec![TPart::Lit("abcd".into()), TPart::NewLine, TPart::Msg], None),
             vec![Op::Tick(0), Op::SetMsg(0, "wxyz".into()), Op::Println(0, "1234".into()), Op::Finish(0, Fin::AndLeave)],
+        ),
+        // open finding 'empty-line-after-text-only-draw-swallowed' (Coq: C01_empty_line_swallowed_refuted)
+        mk(
+            5,
+            10,
+            bar(vec![TPart::Msg, TPart::NewLine, TPart::Pos, TPart::Lit("/".into()), TPart::Len], Some(3)),
+            vec![Op::Finish(0, Fin::AndClear), Op::Println(0, "hello".into()), Op::Suspend(0, vec!["".into()]), Op::Println(0, "after".into())],
+        ),
+        // ... and the covered neighbours: empty first line while a frame is visible / on a fresh terminal / not first
+        mk(
+            5,
+            10,
+            bar(vec![TPart::Msg, TPart::NewLine, TPart::Pos, TPart::Lit("/".into()), TPart::Len], Some(3)),
+            vec![
+                Op::Suspend(0, vec!["".into()]),
+                Op::SetMsg(0, "ab".into()),
+                Op::Suspend(0, vec!["".into(), "x".into(), "".into()]),
+                Op::Finish(0, Fin::AndClear),
+                Op::Println(0, "hello".into()),
+                Op::Suspend(0, vec!["y".into(), "".into()]),
+                Op::Println(0, "z".into()),
+            ],
         ),
         // width 1
         mk(1, 60, bar(vec![TPart::Pos], Some(5)), vec![Op::Inc(0, 12), Op::Println(0, "ab".into()), Op::Inc(0, 100)]),
